@@ -373,9 +373,12 @@ def install():
 # function bodies (pickled by value: this module is __main__)
 
 
-def call_body(spec, *args, **kwargs):
-    """Generic submitted function.  spec: {id, base, fail, gate, log, sleep}."""
+def call_body(*args, _vh_spec=None, **kwargs):
+    """Generic submitted function.  _vh_spec: {id, base, fail, gate, log, sleep}; passed by keyword so that the positional
+    arguments of two task dictionaries are what a comparison of them looks at first."""
     import builtins
+
+    spec = _vh_spec
     import os as _os
     import time as _time
 
@@ -384,6 +387,8 @@ def call_body(spec, *args, **kwargs):
             return sum(flat(y) for y in x)
         if isinstance(x, dict):
             return sum(flat(y) for y in x.values())
+        if hasattr(x, "tolist") and hasattr(x, "sum"):
+            return int(x.sum())          # numpy array
         return x if isinstance(x, int) else 0
 
     n = getattr(builtins, "_vh_ncalls", 0)
@@ -438,6 +443,10 @@ def build_args(call, futs):
     def mk(d):
         if "v" in d:
             return d["v"]
+        if "a" in d:
+            import numpy as _np
+
+            return _np.array(d["a"])         # == on two of these raises when used as a truth value
         if "f" in d:
             return futs[d["f"]]
         if "l" in d:
@@ -485,8 +494,13 @@ def main():
             json.dump(payload, fh, default=str)
         os.replace(tmp, out_path)
 
+    progress = {"t": time.monotonic()}
+
     def watchdog():
-        if not done_flag.wait(scen.get("timeout", 25)):
+        # a hang = one script command (or the final settle phase) not returning within the time limit
+        while not done_flag.wait(0.2):
+            if time.monotonic() - progress["t"] <= scen.get("timeout", 25):
+                continue
             obs["hang"] = True
             stacks = {}
             for tid, fr in sys._current_frames().items():
@@ -523,9 +537,9 @@ def main():
                 _tls.attempt = i
                 try:
                     if call.get("resource_dict") is not None:
-                        futs[i] = exe.submit(call_body, spec, *a, resource_dict=dict(call["resource_dict"]), **k)
+                        futs[i] = exe.submit(call_body, *a, resource_dict=dict(call["resource_dict"]), _vh_spec=spec, **k)
                     else:
-                        futs[i] = exe.submit(call_body, spec, *a, **k)
+                        futs[i] = exe.submit(call_body, *a, _vh_spec=spec, **k)
                     rec["ok"] = True
                 except Exception as e:  # noqa
                     futs[i] = None
@@ -549,7 +563,9 @@ def main():
                             if BaseDone(f):
                                 log("await_done", i=cmd["i"])
                                 break
-                        if time.monotonic() - t0 > scen.get("timeout", 25):
+                        if time.monotonic() - t0 > scen.get("await_timeout", 0.35 * scen.get("timeout", 25)):
+                            # the awaited future is not finishing (lost_future oracle judges that): go on with the script
+                            rec["gave_up"] = True
                             break
                         time.sleep(0.0005)
             elif c == "shutdown":
@@ -580,6 +596,7 @@ def main():
         except Exception as e:  # noqa
             rec["harness_exc"] = repr(e)
         obs["cmds"].append(rec)
+        progress["t"] = time.monotonic()
 
     # let everything the script left running finish, then collect
     t_end = time.monotonic() + scen.get("settle", 6)
